@@ -370,7 +370,7 @@ func validFacts(v Value) []*Term {
 			off, ln, cp, ref := v.L[prefix+".off"], v.L[prefix+".len"], v.L[prefix+".cap"], v.L[prefix+".ref"]
 			z := mkInt(sortInt, 0)
 			out = append(out, mkCmp("le", z, off), mkCmp("le", z, ln), mkCmp("le", ln, cp),
-				mkCmp("le", mkArith("add", mkConv(off, sortMath), mkConv(cp, sortMath)), mkInt(sortMath, 1<<40)),
+				mkCmp("le", off, mkInt(sortInt, 1<<40)), mkCmp("le", cp, mkInt(sortInt, 1<<40)),
 				mkCmp("le", mkInt(sortMath, 0), ref),
 				// a nil slice has no backing region and zero length/capacity
 				mkImplies(mkEq(ref, mkInt(sortRef, 0)), mkAnd(mkEq(cp, z), mkEq(off, z))))
